@@ -9,6 +9,12 @@ CLAIMS = {
         "text": "makeOfficialGlyphOrder is proved, for every glyph-name set and every order list (duplicates, unknown names, .notdef anywhere), to return exactly '.notdef' + first occurrences of listed names + sorted rest (loop invariant + postcondition discharged by z3 on VCs generated from the current source). The ufo2ft-side is proved for all inputs and iteration counts; fontTools' cmap/glyph-order serialisation is trusted.",
         "note": "Trusted: Python container semantics as encoded (set/list/dict models in pyvc/models.py), `sorted` as an opaque spec function, duck-typed glyph-set protocol (keys/in). Floats as reals; termination not proved.",
     },
+    "C04": {
+        "category": "proof",
+        "technique": TECH,
+        "text": "hhea/vhea derived fields proved against the metrics table and glyph boxes for every glyph order and advance sequence.",
+        "note": "Trusted: table attribute bags, getAttrWithFallback summary, Python container semantics.",
+    },
 }
 
 _PENDING = "contracts for this property are not yet built in this snapshot of /verif (work in progress; see DESIGN.md §3 for the plan)"
